@@ -264,8 +264,11 @@ func (b *Bundle) SourceForLocalPath(p string) (sourceaddrs.FinalSource, error) {
 		}
 		if found {
 			// We've found multiple possible source addresses, so we
-			// need to decide which one to keep.
-			if len(candidateAddr.String()) > len(pkgAddr.String()) {
+			// need to decide which one to keep. Among addresses of the
+			// same length the lexically least wins, so that the answer
+			// does not depend on map iteration order.
+			candidateStr, currentStr := candidateAddr.String(), pkgAddr.String()
+			if len(candidateStr) > len(currentStr) || (len(candidateStr) == len(currentStr) && candidateStr >= currentStr) {
 				continue
 			}
 		}
